@@ -59,10 +59,10 @@ var stdIntrospection2 = strings.Replace(strings.Replace(stdIntrospection, "direc
 
 type igen struct {
 	frags []string
-	r    *rand.Rand
-	s    *ast.Schema
-	vars []string
-	vals map[string]any
+	r     *rand.Rand
+	s     *ast.Schema
+	vars  []string
+	vals  map[string]any
 }
 
 func (g *igen) sel(tn string, depth int) string {
